@@ -637,13 +637,18 @@ fn gen_curve_line<S: Fl>(g: Gen, rng: &mut Rng, sample: &dyn Fn(S) -> Point<S>) 
     }
 }
 
-fn quad_a_is_zero<S: Fl>(q: &QuadraticBezierSegment<S>, l: &Line<S>) -> bool {
-    // the guard of lyon's linear branch, recomputed with the same expressions
+/// the guard of lyon's linear branch (`a == 0`), recomputed with the same expressions, and the
+/// magnitude bound `R` of the roots of the quadratic
+fn quad_line_info<S: Fl>(q: &QuadraticBezierSegment<S>, l: &Line<S>) -> (bool, f64) {
     let e = l.equation();
     let i = e.a() * q.from.x + e.b() * q.from.y;
     let j = e.a() * q.ctrl.x + e.b() * q.ctrl.y;
     let k = e.a() * q.to.x + e.b() * q.to.y;
-    i - j - j + k == S::of(0.0)
+    let a = i - j - j + k;
+    let b = j + j - i - i;
+    let c = i + e.c();
+    let r = if a == S::of(0.0) { (c.f() / b.f()).abs() } else { (b.f() / a.f()).abs().max((c.f() / a.f()).abs().sqrt()) };
+    (a == S::of(0.0), if r.is_finite() { r } else { 0.0 })
 }
 
 fn gen_quad<S: Fl>(g: Gen, rng: &mut Rng) -> (QuadraticBezierSegment<S>, &'static str) {
@@ -666,7 +671,7 @@ fn quadline_case<S: Fl>(ctx: &mut Ctx) {
         let mut args = Out::new();
         args.p(q.from).p(q.ctrl).p(q.to);
         put_line(&mut args, &l);
-        let a0 = quad_a_is_zero(&q, &l);
+        let (a0, rr) = quad_line_info(&q, &l);
         let tag = format!("quadline {} {} {} {}{}", S::BITS, g.name(), qk, lk, if a0 { " a=0" } else { "" });
         (args, tag, move || {
             let mut out = Out::new();
@@ -686,7 +691,7 @@ fn quadline_case<S: Fl>(ctx: &mut Ctx) {
             let tsf: Vec<f64> = ts.iter().map(|t| t.f()).collect();
             let finite = ctrl.iter().all(|p| p.0.is_finite() && p.1.is_finite());
             if finite {
-                curve_line_oracle::<S>(&mut orc, "quad.line_intersections_t", class, &ctrl, p64(l.point), v64(l.vector), &tsf, None, if S::BITS == 32 { 2e-4 } else { 1e-10 }, if S::BITS == 32 { 2e-3 } else { 1e-7 });
+                curve_line_oracle::<S>(&mut orc, "quad.line_intersections_t", class, &ctrl, p64(l.point), v64(l.vector), &tsf, None, curve_tol::<S>(&ctrl, p64(l.point), rr), if S::BITS == 32 { 2e-3 } else { 1e-7 });
                 orc.check(ps.len() == ts.len(), "quad.line_intersections/count", "generic", || format!("{} vs {}", ps.len(), ts.len()));
             } else {
                 orc.skip("non-finite-input");
@@ -730,15 +735,14 @@ fn put_pairs<S: Fl>(out: &mut Out, v: &[(S, S)]) {
 }
 
 /// soundness of the segment parameter `u` returned next to a curve parameter `t`
-fn seg_param_oracle<S: Fl>(orc: &mut Oracle, site: &str, ctrl: &[V2], s: &LineSegment<S>, pairs: &[(f64, f64)], tol_scale: f64) {
+fn seg_param_oracle<S: Fl>(orc: &mut Oracle, site: &str, class: &str, ctrl: &[V2], s: &LineSegment<S>, pairs: &[(f64, f64)], tol: f64) {
     let (s0, s1) = (p64(s.from), p64(s.to));
-    let m = ctrl.iter().fold(0.0f64, |m, p| m.max(p.0.abs()).max(p.1.abs())).max(maxabs(&[s.from, s.to])).max(1e-30);
+    let tol = tol + 64.0 * S::EPS * maxabs(&[s.from, s.to]);
     for &(t, u) in pairs {
         let pc = bez(ctrl, t);
         let ps = lerp(s0, s1, u);
         let e = norm(sub(pc, ps));
-        let tol = tol_scale * m;
-        orc.check(e <= tol, &format!("{}/resample-both", site), "generic", || format!("curve({})=({},{}) seg({})=({},{}) err={:e} tol={:e}", t, pc.0, pc.1, u, ps.0, ps.1, e, tol));
+        orc.check(e <= tol, &format!("{}/resample-both", site), class, || format!("curve({})=({},{}) seg({})=({},{}) err={:e} tol={:e}", t, pc.0, pc.1, u, ps.0, ps.1, e, tol));
     }
 }
 
@@ -750,7 +754,7 @@ fn quadseg_case<S: Fl>(ctx: &mut Ctx) {
         let mut args = Out::new();
         args.p(q.from).p(q.ctrl).p(q.to);
         put_seg(&mut args, &s);
-        let a0 = quad_a_is_zero(&q, &s.to_line());
+        let (a0, rr) = quad_line_info(&q, &s.to_line());
         let degenerate = s.from == s.to;
         let tag = format!("quadseg {} {} {} {}{}{}", S::BITS, g.name(), qk, sk, if a0 { " a=0" } else { "" }, if degenerate { " trivial" } else { "" });
         (args, tag, move || {
@@ -766,9 +770,9 @@ fn quadseg_case<S: Fl>(ctx: &mut Ctx) {
             if degenerate {
                 orc.check(r.is_empty(), "quad.line_segment_intersections_t/point-segment-none", "generic", || format!("{:?}", pairs));
             } else {
-                let st = if S::BITS == 32 { 2e-4 } else { 1e-10 };
+                let st = curve_tol::<S>(&ctrl, p64(l.point), rr);
                 curve_line_oracle::<S>(&mut orc, "quad.line_segment_intersections_t", class, &ctrl, p64(l.point), v64(l.vector), &tsf, Some((p64(s.from), p64(s.to))), st, if S::BITS == 32 { 2e-3 } else { 1e-7 });
-                seg_param_oracle(&mut orc, "quad.line_segment_intersections_t", &ctrl, &s, &pairs, st * 4.0);
+                seg_param_oracle(&mut orc, "quad.line_segment_intersections_t", class, &ctrl, &s, &pairs, st * 4.0);
             }
             CaseOut { imp: out, orcl: orc.verdict }
         })
@@ -893,9 +897,8 @@ fn cubicline_case<S: Fl>(ctx: &mut Ctx) {
         let mut args = Out::new();
         args.p(c.from).p(c.ctrl1).p(c.ctrl2).p(c.to);
         put_line(&mut args, &l);
-        let co = cubic_line_coeffs(&c, &l);
-        let mm = co.iter().fold(0.0f64, |m, x| m.max(x.f().abs()));
-        let tag = format!("cubicline {} {} {} {}", S::BITS, g.name(), lk, eps_class(mm, S::BITS));
+        let (class, rr) = cubicline_class(&c, &l);
+        let tag = format!("cubicline {} {} {} {}", S::BITS, g.name(), lk, class);
         (args, tag, move || {
             let mut out = Out::new();
             let ts = c.line_intersections_t(&l);
@@ -913,7 +916,7 @@ fn cubicline_case<S: Fl>(ctx: &mut Ctx) {
             let tsf: Vec<f64> = ts.iter().map(|t| t.f()).collect();
             let finite = ctrl.iter().all(|p| p.0.is_finite() && p.1.is_finite());
             if finite {
-                curve_line_oracle::<S>(&mut orc, "cubic.line_intersections_t", eps_class(mm, S::BITS), &ctrl, p64(l.point), v64(l.vector), &tsf, None, if S::BITS == 32 { 2e-3 } else { 1e-7 }, if S::BITS == 32 { 1e-2 } else { 1e-5 });
+                curve_line_oracle::<S>(&mut orc, "cubic.line_intersections_t", class, &ctrl, p64(l.point), v64(l.vector), &tsf, None, curve_tol::<S>(&ctrl, p64(l.point), rr), if S::BITS == 32 { 1e-2 } else { 1e-5 });
             } else {
                 orc.skip("non-finite-input");
             }
@@ -931,10 +934,9 @@ fn cubicseg_case<S: Fl>(ctx: &mut Ctx) {
         args.p(c.from).p(c.ctrl1).p(c.ctrl2).p(c.to);
         put_seg(&mut args, &s);
         let l = s.to_line();
-        let co = cubic_line_coeffs(&c, &l);
-        let mm = co.iter().fold(0.0f64, |m, x| m.max(x.f().abs()));
+        let (class, rr) = cubicline_class(&c, &l);
         let degenerate = s.from == s.to;
-        let tag = format!("cubicseg {} {} {} {}{}", S::BITS, g.name(), sk, eps_class(mm, S::BITS), if degenerate { " trivial" } else { "" });
+        let tag = format!("cubicseg {} {} {} {}{}", S::BITS, g.name(), sk, class, if degenerate { " trivial" } else { "" });
         (args, tag, move || {
             let mut out = Out::new();
             let r = c.line_segment_intersections_t(&s);
@@ -946,9 +948,9 @@ fn cubicseg_case<S: Fl>(ctx: &mut Ctx) {
             if degenerate {
                 orc.check(r.is_empty(), "cubic.line_segment_intersections_t/point-segment-none", "generic", || format!("{:?}", pairs));
             } else {
-                let st = if S::BITS == 32 { 2e-3 } else { 1e-7 };
-                curve_line_oracle::<S>(&mut orc, "cubic.line_segment_intersections_t", eps_class(mm, S::BITS), &ctrl, p64(l.point), v64(l.vector), &tsf, Some((p64(s.from), p64(s.to))), st, if S::BITS == 32 { 1e-2 } else { 1e-5 });
-                seg_param_oracle(&mut orc, "cubic.line_segment_intersections_t", &ctrl, &s, &pairs, st * 4.0);
+                let st = curve_tol::<S>(&ctrl, p64(l.point), rr);
+                curve_line_oracle::<S>(&mut orc, "cubic.line_segment_intersections_t", class, &ctrl, p64(l.point), v64(l.vector), &tsf, Some((p64(s.from), p64(s.to))), st, if S::BITS == 32 { 1e-2 } else { 1e-5 });
+                seg_param_oracle(&mut orc, "cubic.line_segment_intersections_t", class, &ctrl, &s, &pairs, st * 4.0);
             }
             CaseOut { imp: out, orcl: orc.verdict }
         })
@@ -988,8 +990,8 @@ fn polyroots_case<S: Fl>(ctx: &mut Ctx) {
         let (a, b, c, d) = (co[0], co[1], co[2], co[3]);
         let mut args = Out::new();
         args.f(a).f(b).f(c).f(d);
-        let mm = co.iter().fold(0.0f64, |m, x| m.max(x.f().abs()));
-        let tag = format!("polyroots {} {} {} {}", S::BITS, g.name(), kind, eps_class(mm, S::BITS));
+        let (class, rr) = cubic_class([a.f(), b.f(), c.f(), d.f()], S::BITS);
+        let tag = format!("polyroots {} {} {} {}", S::BITS, g.name(), kind, class);
         (args, tag, move || {
             let mut out = Out::new();
             let r = cubic_polynomial_roots(a, b, c, d);
@@ -1004,11 +1006,17 @@ fn polyroots_case<S: Fl>(ctx: &mut Ctx) {
                 if !x.is_finite() {
                     continue;
                 }
-                // relative residual: |p(x)| against the sum of the absolute terms
+                // normwise backward error: x is an exact root of a polynomial whose coefficients
+                // differ from the given ones by at most tol_rel·max|coef|
                 let res = (((a * x + b) * x + c) * x + d).abs();
-                let scale = a.abs() * x.abs().powi(3) + b.abs() * x * x + c.abs() * x.abs() + d.abs();
-                let tol = if S::BITS == 32 { 2e-3 } else { 1e-6 } * scale;
-                orc.check(res <= tol, "utils.cubic_polynomial_roots/residual", eps_class(mm, S::BITS), || format!("x={} |p(x)|={:e} tol={:e}", x, res, tol));
+                let mm = a.abs().max(b.abs()).max(c.abs()).max(d.abs());
+                let ax = x.abs();
+                let scale = mm * (1.0 + ax + ax * ax + ax * ax * ax);
+                let tol = 512.0 * S::EPS * (1.0 + rr) * scale + lyon_eps_for(mm, S::BITS) * ax * ax * ax.max(1.0);
+                if std::env::var("C12_STATS").is_ok() {
+                    eprintln!("STAT polyroots {} {:e}", class, res / tol);
+                }
+                orc.check(res <= tol, "utils.cubic_polynomial_roots/residual", class, || format!("x={} |p(x)|={:e} tol={:e}", x, res, tol));
             }
             CaseOut { imp: out, orcl: orc.verdict }
         })
